@@ -181,6 +181,16 @@ func (a *FuncAction) Exec(ctx context.Context, bs Bindings, props StepProps) (*E
 		}
 	}
 
+	if exe != nil {
+		// A native action might have made its Execution by hand
+		// (and not with NewExecution).
+		if exe.Events == nil {
+			exe.Events = newEvents()
+		} else if exe.Events.Traces == nil {
+			exe.Events.Traces = NewTraces()
+		}
+	}
+
 	{ // This block just generates tracing data.
 		if exe == nil {
 			exe = NewExecution(nil)
